@@ -148,6 +148,12 @@ func c03Run(c *engine.Ctx) {
 		}
 	}
 	c03Scalars(c)
+	universe.Scale(func(r universe.Recipe) { c03Case(c, r, "method") })
+	for i := range universe.Structs {
+		s := &universe.Structs[i]
+		universe.Degenerate(s, universe.Gob, func(r universe.Recipe) { c03Case(c, r, "method") })
+		universe.SharedIdentity(s, func(r universe.Recipe) { c03Case(c, r, "pkg") })
+	}
 	if c.Quick() {
 		return
 	}
